@@ -526,6 +526,12 @@ def symint(x=0):
     return int(x)
 
 
+def z3_unescape(s):
+    """z3 prints non-printable / non-ASCII / backslash characters of string values as \\u{hex}"""
+    import re as _re
+    return _re.sub(r'\\u\{([0-9a-fA-F]+)\}', lambda mo: chr(int(mo.group(1), 16)), s)
+
+
 def model_value(m, v):
     r = m.eval(v, model_completion=True)
     if z3.is_true(r):
@@ -540,7 +546,7 @@ def model_value(m, v):
         a = r.approx(20)
         return Fraction(a.numerator_as_long(), a.denominator_as_long())
     if z3.is_string_value(r):
-        return r.as_string()
+        return z3_unescape(r.as_string())
     r2 = z3.simplify(r)
     if z3.is_rational_value(r2):
         return Fraction(r2.numerator_as_long(), r2.denominator_as_long())
